@@ -21,7 +21,11 @@ CONSTANTS DT,        \* dtypes of the data (and of operand 0 / operand 1)
           CDA, CDE,  \* comb family: dtypes of the array / of the listed, assigned or compared elements
           CVB,       \* value classes of element 2
           CPairs,    \* <<unit of element 1, unit of element 2>>
-          COps       \* ufuncs with a list operand
+          COps,      \* ufuncs with a list operand
+          OffPairs,  \* round 7: dyadic pairs with factor one (same unit / another name) and pairs of units with an offset
+          OffVC,     \* value classes on those pairs and on the round-7 pairs of the default registry
+          RPairs,    \* unit pairs of the default registry
+          RRoutes    \* copy routes replayed on them
 
 \* ---- named constant values for the cfgs (cfg files cannot write tuples) ----
 DT13 == {"i1", "i2", "i4", "i8", "u1", "u2", "u4", "u8", "f2", "f4", "f8", "c8", "c16"}
@@ -64,22 +68,42 @@ URealPairs == {<<1, 6>>, <<6, 4>>, <<8, 6>>, <<4, 5>>, <<1, 12>>}
 URealOps == {"add", "subtract", "maximum", "less"}
 URealD0 == {"i2", "i4", "i8", "f4", "f8"}
 URealVC1 == {"z0", "s3", "n5", "e11", "g24", "max", "h", "ng"}
+\* round 7.  Dyadic: m -> m (identity), la -> lnd (same scale, other name), tc/tf/K (offset units, see DType.UnitOff)
+OffPairsQuick == {<<1, 1>>, <<2, 11>>, <<22, 21>>, <<23, 22>>, <<22, 23>>}
+OffPairsFull == OffPairsQuick \cup {<<21, 22>>, <<21, 23>>, <<23, 21>>, <<11, 2>>, <<3, 3>>}
+OffVCQuick == {"z0", "s3", "n5", "e11", "max", "min", "h", "ulp", "z"}
+\* `to` is `return self.in_units(...)`: the quick tier replays the alias on the dyadic families only
+RRoutesQuick == CopyRoutes \ {"in_units"}
+\* pairs that are there for the cgs base routes
+CgsOnlyPairs == {<<24, 25>>, <<6, 6>>}
+\* default registry: N -> kg*m/s**2, dyn -> g*cm/s**2 (factor one, another name), cm -> cm (identity; the base unit of cgs),
+\* degC -> K, degC -> degF, degF -> degC, K -> degF, degF -> K, K -> degC
+R7Pairs == {<<17, 18>>, <<24, 25>>, <<6, 6>>, <<19, 21>>, <<19, 20>>, <<20, 19>>, <<21, 20>>, <<20, 21>>, <<21, 19>>}
+RealPairsQuick == (RealPairs \ {<<5, 4>>, <<1, 12>>}) \cup {<<17, 18>>, <<24, 25>>, <<6, 6>>, <<19, 21>>, <<19, 20>>}
+RealPairsFull == RealPairs \cup R7Pairs
+\* the unit a base-unit route ends in must be the pair's target
+BaseTargetOK(route, to) == CASE route \in {"in_base", "in_mks"} -> to \in {1, 14, 18, 21}
+                             [] route = "in_cgs" -> to \in {6, 25, 21}
+                             [] OTHER -> TRUE
 VARIABLE c
 vars == <<c>>
 Init == c = <<>>
 
-BaseRoutes == {"in_base", "in_mks"}
+BaseRoutes == {"in_base", "in_mks", "in_cgs"}
 \* real == TRUE: units of the default registry (4 = km, 5 = mile, 1 = m), non-dyadic factors; k only keeps
 \* the direction of the factor (+1 up, -1 down); values are then compared under a stated tolerance
 ConvCase(route, d, vc, from, to, shape, real) ==
   LET vcs == Elems(vc, d, shape)
       k == IF real THEN RealDir(from, to) ELSE Factor(from, to)
       rc == ConvOut(route, d, vcs, k, shape)
-      ri == ConvOut(Twin(route), d, vcs, k, shape) IN
+      ri == ConvOut(Twin(route), d, vcs, k, shape)
+      ident == from = to IN
   [fam |-> "conv", route |-> route, twin |-> Twin(route), d |-> d, vc |-> vc, from |-> from, to |-> to, k |-> k,
    shape |-> shape, vcs |-> vcs, real |-> real, mc |-> rc, mi |-> ri,
-   mfail |-> {[route |-> route, cl |-> x] : x \in ConvFails(route, d, vcs, rc)}
-             \cup {[route |-> Twin(route), cl |-> x] : x \in ConvFails(Twin(route), d, vcs, ri)}
+   \* sh: what the conversion adds after scaling (units with an offset); ident: source unit = target unit
+   sh |-> IF real THEN RZero ELSE Shift(from, to), ident |-> ident,
+   mfail |-> {[route |-> route, cl |-> x] : x \in ConvFailsI(route, d, vcs, rc, ident)}
+             \cup {[route |-> Twin(route), cl |-> x] : x \in ConvFailsI(Twin(route), d, vcs, ri, ident)}
              \cup (IF C17c(rc, ri, rc.vok = ri.vok) THEN {} ELSE {[route |-> route, cl |-> "C17c"]})]
 
 UElems(vc0, vc1, d0, d1, shape) ==
@@ -150,14 +174,17 @@ URealCase(op, d0, d1, vc0, vc1, u0, u1) ==
 Next ==
   /\ c = <<>>
   /\ \/ /\ "conv" \in Fams
-        /\ \E route \in Routes, d \in DT, vc \in ConvVC, p \in Pairs, shape \in Shapes :
+        /\ \E route \in Routes, d \in DT, vc \in ConvVC, p \in Pairs \cup OffPairs, shape \in Shapes :
              /\ Applies(vc, d)
-             /\ (route \in BaseRoutes => p[2] = 1)
+             /\ (p \in OffPairs => vc \in OffVC)
+             /\ (route \in BaseRoutes => (route # "in_cgs" /\ p[2] \in {1, 21}))
              /\ c' = ConvCase(route, d, vc, p[1], p[2], shape, FALSE)
      \/ /\ "real" \in Fams
-        /\ \E route \in Routes, d \in DT, vc \in ConvVC, p \in RealPairs, shape \in Shapes :
+        /\ \E route \in RRoutes, d \in DT, vc \in ConvVC, p \in RPairs, shape \in Shapes :
              /\ Applies(vc, d)
-             /\ (route \in BaseRoutes => p[2] \in {1, 14})
+             /\ (p \in CgsOnlyPairs => route \in {"in_cgs", "to", "to_value"})
+             /\ (p \in R7Pairs => vc \in OffVC)
+             /\ BaseTargetOK(route, p[2])
              /\ (p[1] = 15 => ~IsComplex(d))
              /\ c' = ConvCase(route, d, vc, p[1], p[2], shape, TRUE)
      \/ /\ "ureal" \in Fams
